@@ -453,5 +453,41 @@ def canon_value(t, v):
     return v
 
 
+def diff_path(t, a, b):
+    """kinds along the path to the first difference of two canonical neutral values"""
+    k = kind(t)
+    if a == b:
+        return []
+    try:
+        if a is None or b is None or a[0] != b[0]:
+            return [k]
+        if k == 'interval':
+            for i in (1, 2):
+                if a[i] != b[i]:
+                    return [k] + diff_path(t[1], a[i], b[i])
+        if k in ('array', 'set') and len(a[1]) == len(b[1]):
+            for x, y in zip(a[1], b[1]):
+                if x != y:
+                    return [k] + diff_path(t[1], x, y)
+        if k == 'dict' and len(a[1]) == len(b[1]):
+            for (ka, va), (kb, vb) in zip(a[1], b[1]):
+                if ka != kb:
+                    return [k, 'key'] + diff_path(t[1], ka, kb)
+                if va != vb:
+                    return [k, 'value'] + diff_path(t[2], va, vb)
+        if k == 'struct' and len(a[1]) == len(b[1]):
+            for f, x, y in zip(t[1], a[1], b[1]):
+                if x != y:
+                    return [k] + diff_path(f[1], x, y)
+        if k == 'tuple' and len(a[1]) == len(b[1]):
+            for tt, x, y in zip(t[1], a[1], b[1]):
+                if x != y:
+                    return [k] + diff_path(tt, x, y)
+    except (TypeError, IndexError):
+        pass
+    return [k]
+
+
+
 def f32_to_f64_bits(b32):
     return struct.unpack('<Q', struct.pack('<d', struct.unpack('<f', struct.pack('<I', b32))[0]))[0]
